@@ -1061,3 +1061,27 @@ theorem converged_iff_residual_zero {K : Type} [Field K] [LinearOrder K] (fn : F
   simp only [Converged, suffResidual, Prod.mk.injEq, and_true, sub_eq_zero]
 
 end AF.C17
+
+namespace AF.C17
+open AF.Msg
+
+/-! ## an array message times a scalar message (known finding, modelled as the code behaves) -/
+
+/-- PARTIAL: the product / quotient of a two-element message with a scalar message is the element-wise one only
+under the explicit guard that the scalar operand's two natural parameters coincide -/
+theorem mixed_shape_broadcast_partial {K : Type} [Field K] (fn : Fn K) (a : Base K) (eb : K × K) (lnB : K) (j : Nat)
+    (hguard : eb.1 = eb.2) : a.mulB fn eb j = a.mul fn eb ∧ a.divB fn eb lnB j = a.div fn eb lnB := by
+  have e : (if j = 0 then eb.1 else eb.2) = eb.1 := by split <;> simp [hguard]
+  have e' : (eb.1, eb.1) = eb := by ext <;> simp [hguard]
+  simp only [Base.mulB, Base.divB, e, e', and_self]
+
+/-- the guard is necessary: `GammaMessage([1, 2], [1, 0.5]) * GammaMessage(2, 3)` - the second element of the result has
+shape `-1` (an invalid message) where the element-wise product has shape `3` -/
+theorem mixed_shape_broadcast_refuted (fn : Fn ℚ) :
+    let a1 : Base ℚ := { fam := .gamma, p1 := 2, p2 := 1 / 2, logNorm := 0, id := 0, lower := 0, upper := 0 }
+    let eb : ℚ × ℚ := calcNatural .gamma 2 3
+    (a1.mulB fn eb 1).p1 = -1 ∧ (a1.mul fn eb).p1 = 3 := by
+  simp only [Base.mulB, Base.mul, Base.natural, calcNatural, fromNatural, invertNatural]
+  norm_num
+
+end AF.C17
